@@ -401,12 +401,18 @@ def write_mesh(base, nodes, eles, edges, pbcs, ages, kind):
     open(base + ".poly", "w").write("0 2 0 1\n0 1\n0\n0\n")
 
 
-def hand_problem(ctx, kind, rng, idx, nlabels=2, default=None, units=None):
-    """problem file: 3 materials, boundary properties of every type of base_props (+ 2 more), labels"""
+def hand_problem(ctx, kind, rng, idx, nlabels=2, default=None, units=None, nbdry=None):
+    """problem file: 3 materials, boundary properties of every type of base_props (+ 2 more), labels;
+    nbdry = 0 / 1: MORE point properties (six) than boundary properties (nbdry): the two property lists are different arrays"""
     B = femgen.Builder(kind)
     geomgen.base_props(B, kind, rng)
-    B.prop("bdryprops", name="xb0", type=0)
-    if kind != "fem":
+    if nbdry is not None:
+        B.p["bdryprops"] = B.p["bdryprops"][:nbdry]
+        for k in range(5):
+            B.prop("pointprops", name="pp%d" % (k + 1), **({"A_re": 1e-3 * k} if kind == "fem" else {"V": 300.0 + k, "q": 0.0}))
+    else:
+        B.prop("bdryprops", name="xb0", type=0)
+    if kind != "fem" and nbdry is None:
         B.prop("bdryprops", name="xq", type=2, **({"qs": 2e-6} if kind == "fee" else {"h": 5.0, "Tinf": 280.0}))
         B.prop("circuits", name="xc", type=1)
     B.rect(0.0, 0.0, 1.0, 1.0)
@@ -465,6 +471,15 @@ def hand_cases(ctx, rng, quick):
             edges2 += [(a, b, rng.choice(sm)) for (a, b, m) in edges[3:8]]
             rng.shuffle(edges2)
             add("grid-sides-repeated+unknown", kind, nodes, eles, edges2)
+        # more point properties than boundary properties: node markers name point properties 0..5, the problem has 0 or 1
+        # boundary property (edges carry no boundary property, or the only one)
+        for nb in (0, 1):
+            nodes = [(x, y, rng.choice([2, 3, 4, 5, 6, 7] if kind == "fem" else [2, 3, 4, 5, 6, 7, 65536 + 5, 2 * 65536 + 7]))
+                     for (x, y) in GRID]
+            ed = [(a, b) if rng.random() < 0.5 else (b, a) for (a, b) in sides]
+            edges = [(a, b, rng.choice([0, 1, -1] + ([-2] if nb else []))) for (a, b) in ed]
+            eles = [t + (rng.choice([1, 1, 2]),) for t in GRID_T]
+            add("grid-more-point-than-boundary-properties", kind, nodes, eles, edges, nbdry=nb)
         # degenerate elements (repeated corners), elements listed twice, a node used by no element, default label via attribute 0
         nodes = [(x, y, rng.choice(pm)) for (x, y) in GRID] + [(5.0, 5.0, rng.choice(pm))]
         eles = [(0, 1, 1, 1), (0, 0, 1, 2), (4, 4, 4, 0), (0, 1, 4, 1), (0, 1, 4, -3), (1, 0, 3, 2)]
